@@ -10,7 +10,7 @@ CLAIMED = json.load(open(os.path.join(HERE, 'claims.json')))
 ENV = "GOFLAGS=-mod=mod GOPROXY=off GOSUMDB=off GOTOOLCHAIN=local"
 m = {
  "version": 1,
- "setup_cmd": f"cd /verif/engine && {ENV} go build -o /verif/bin/gosymx ./cmd/gosymx",
+ "setup_cmd": f"cd /verif/engine && {ENV} go build -o /verif/bin/gosymx ./cmd/gosymx && cd /verif && (./check SELF || echo 'WARNING: executor self-validation (./check SELF) did not pass')",
  "hooks": {
   "guard": "verif",
   "enable": "harness files (package flags, //go:build verif) are injected through a go/packages overlay for the engine and `go test -tags verif -overlay` for native replay; /repo carries no hook code",
